@@ -141,6 +141,10 @@ def gen_plan(seed, tier):
         if r.random() < 0.08:
             c = r.choice([0, -1, sum(values) * 3 + 1])
         plan["constraint"] = {"kind": kind, "c": c}
+    # a two-step history: the caller has used the same objective object for another request before
+    if r.random() < 0.2:
+        pk = r.choice([x for x in (1, 2, 3, 4) if x != k])
+        plan["prior"] = {"numbins": pk, "values": [r.randint(1, 60) for _ in range(r.randint(1, 5))]}
     # solver behaviour
     arm = r.choices(["real", "fault"], weights=[70, 30])[0]
     if arm == "real":
@@ -164,13 +168,21 @@ def gen_plan(seed, tier):
 
 # ---------------------------------------------------------------- executing the real code
 
+_objs = {}
+
+
 def _objective(name):
+    """The objective object is caller-owned: ONE object per run, shared by the prior call (if any),
+    the judged call and the re-solves."""
     from prtpy import objectives as obj
-    if name.startswith("kmin:"):
-        return obj.MaximizeKSmallestSums(int(name[5:]))
-    if name.startswith("kmax:"):
-        return obj.MinimizeKLargestSums(int(name[5:]))
-    return {"diff": obj.MinimizeDifference, "max": obj.MinimizeLargestSum, "min": obj.MaximizeSmallestSum}[name]
+    if name not in _objs:
+        if name.startswith("kmin:"):
+            _objs[name] = obj.MaximizeKSmallestSums(int(name[5:]))
+        elif name.startswith("kmax:"):
+            _objs[name] = obj.MinimizeKLargestSums(int(name[5:]))
+        else:
+            _objs[name] = {"diff": obj.MinimizeDifference, "max": obj.MinimizeLargestSum, "min": obj.MaximizeSmallestSum}[name]
+    return _objs[name]
 
 
 def _constraint_fn(con, weights):
@@ -332,6 +344,14 @@ def execute(plan, seed=0):
     cache = {}
     s = plan["solver"]
     tr.add("plan", plan=plan)
+    if plan.get("prior"):
+        pr = plan["prior"]
+        p0 = dict(plan, values=pr["values"], numbins=pr["numbins"], form="list", copies=None, weights=None, constraint=None,
+                  time_limit=None, out="Sums")
+        o0 = _call(p0, {"mode": "real"})
+        tr.add("prior-call", outcome=canon(o0[1]))
+        res.probe("prior_call_sharing_the_objective_object")
+        _solver.calls = 0
     outcome = _call(plan, s)
     fired = dict(_solver.fired)
     forwarded = _solver.last_forwarded_max_seconds
@@ -341,7 +361,7 @@ def execute(plan, seed=0):
         res.fault(k_, v_)
     if _solver.calls == 0:
         raise RuntimeError("solver seam not reached: mip.Model.optimize was never called")
-    nontrivial = bool(fired) or plan["copies"] not in (None, 1) or plan["weights"] is not None or plan["constraint"] is not None or plan["time_limit"] is not None
+    nontrivial = bool(fired) or bool(plan.get("prior")) or plan["copies"] not in (None, 1) or plan["weights"] is not None or plan["constraint"] is not None or plan["time_limit"] is not None
     if fired:
         # fault arm: the solver did not prove optimality -> the call must raise, whatever else
         if outcome[0] == "ok":
@@ -409,6 +429,10 @@ def shrink_candidates(plan, clause):
         if plan["objective"].startswith("k"):
             kw["objective"] = plan["objective"].split(":")[0] + ":1"
         yield mk(**kw)
+    if plan.get("prior"):
+        p = mk()
+        p.pop("prior")
+        yield p
     if plan["form"] != "list":
         yield mk(form="list")
     if plan["out"] != "PartitionAndSumsTuple":
